@@ -71,7 +71,7 @@ ALGO_POOL = ['MANUAL', 'SEMIAUTOMATIC', 'AUTOMATIC']
 TRACK_POOL = ['trk-a', 'trk-b', 'trk-c']
 
 
-def _descriptions(r, nums, uid_pool, manual_only=False):
+def _descriptions(r, nums, uid_pool):
     """Random description records + the SegmentDescription objects built from them."""
     import highdicom as hd
     from pydicom.sr.coding import Code
@@ -80,8 +80,6 @@ def _descriptions(r, nums, uid_pool, manual_only=False):
         cat = r.choice(CODE_POOL)
         typ = r.choice(CODE_POOL)
         algo = r.choice(ALGO_POOL)
-        if manual_only:
-            algo = 'MANUAL'     # shim gap: descriptions with an algorithm identification cannot be re-parsed (see docs)
         rec = {'number': int(n), 'label': r.choice(LABEL_POOL), 'category': cat, 'type': typ, 'algo': algo,
                'tracking_id': None, 'tracking_uid': None}
         kw = {}
@@ -198,7 +196,7 @@ def _build(ctx, d):
     r = ctx.rng('desc', d['idx'])
     store = _draw_mask(ctx, d)
     uid_pool = ['1.2.826.0.1.3680043.8.498.%d' % (1000 + i) for i in range(3)]
-    recs, descs = _descriptions(r, d['nums'], uid_pool, manual_only=d['via'] != 'memory')
+    recs, descs = _descriptions(r, d['nums'], uid_pool)
     kind = d['kind']
     kw = {}
     if kind == 'series':
@@ -629,6 +627,9 @@ def _search(ctx, obj, reqs, pending):
     if st != 'ok' or val[0] != d['nums'] or val[1] != len(d['nums']):
         ctx.fail({'obj': d, 'search': 'segment_numbers'}, f'segment_numbers/number_of_segments = {val}, described {d["nums"]}',
                  site='search/segment_numbers')
+    reqs.append(('segmentNumbersAll', {'descs': _descs_json(seg), 'ppv': _ppv(seg)}))
+    pending.append(({'obj': d, 'search': 'segment_numbers'},
+                    ('ok', {'numbers': [int(x) for x in val[0]], 'count': val[1]}) if st == 'ok' else ('err', _err_kind(val)), 'exact'))
     for rec in recs:
         st, val = _fetch(seg.get_segment_description, rec['number'])
         ok = st == 'ok' and val.segment_label == rec['label'] and val.tracking_id == rec['tracking_id'] and \
@@ -924,7 +925,12 @@ def run(ctx):
         if impl[0] != model[0]:
             ctx.disagree(layer, case, impl, model, 'ok-vs-error')
         elif impl[0] == 'ok' and how != 'okerr':
-            same = _same(impl[1], model[1]) if how == 'read' else impl[1] == model[1]
+            if how == 'read':
+                same = _same(impl[1], model[1])
+            elif how == 'sorted-pairs':
+                same = sorted(map(list, impl[1])) == sorted(map(list, model[1]))
+            else:
+                same = impl[1] == model[1]
             if not same:
                 ctx.disagree(layer, case, _short(impl), _short(model), 'value')
 
